@@ -12,7 +12,7 @@ From BB Require Import BN Brute SpaceFacts TrapFacts PercolateFacts AttractorFac
   Strict PetriNet Control Meta FilterFacts PetriNetFacts TrappistFacts DiagramStruct DiagramSem1 DiagramCache
   DiagramDepth DiagramComplete Termination ControlFacts MetaFacts Candidates StrictFacts MinExpandFacts CandidatesFacts SymbolicTest SymbolicTestFacts Signed ReductionFacts ControlFacts2 Main Blocks BlocksFacts ObsFacts OwnerFacts CandidatesTerm
   PartialOwner BlockMath BlockComplete ASeeds ASeedsFacts LogChecks SkipRule SkipRuleFacts Names NamesFacts Perm PermFacts SCC SCCFacts SCCStruct ControlFacts3 SCCTerm FilterSym Main2 StrategyFacts ControlFacts4 SkipRuleFacts2 SCCComplete SCCAttr BlockComplete2 ControlFacts5 Iso SkipSem ControlFacts6.
-From BB Require Import PyLib PySrcBase PySrcKey PySrcKeyFacts PyLibCore PySrcCore PySrcCoreFacts PyLibCore2 PySrcCore2 PySrcCore2Facts PySrcInitFacts PyLibSd PyLibPerc PySrcIso PySrcIsoFacts.
+From BB Require Import PyLib PySrcBase PySrcKey PySrcKeyFacts PyLibCore PySrcCore PySrcCoreFacts PyLibCore2 PySrcCore2 PySrcCore2Facts PySrcInitFacts PyLibSd PyLibPerc PySrcIso PySrcIsoFacts PyLib PyLibCore PySrcCore PySrcCoreFacts PySrcGetters PySrcGettersFacts.
 
 (* translator tie: SuccessionDiagram.is_subgraph / is_isomorphic as generated from the source compute the model's is_subgraph_b / is_isomorphic_b (whose specs are is_subgraph_b_spec / is_isomorphic_b_spec) *)
 Theorem C20_source_is_subgraph : forall a b : sd, py_is_subgraph a b = Some (is_subgraph_b a b).
@@ -20,6 +20,33 @@ Proof. exact py_is_subgraph_spec. Qed.
 
 Theorem C20_source_is_isomorphic : forall a b : sd, py_is_isomorphic a b = Some (is_isomorphic_b a b).
 Proof. exact py_is_isomorphic_spec. Qed.
+
+(* SuccessionDiagram.find_node, pinned to its current text (PySrcGetters.v), is the model's find_node whenever node_indices is consistent with the graph (part of CoreInv, kept by every method) -- hence exact: *)
+Theorem C20_source_find_node : forall (w : pyst) (X : space), idx_ok w -> py_find_node w X = find_node (p_sd w) X.
+Proof. exact py_find_node_spec. Qed.
+
+Theorem C20_source_find_node_exact : forall (N : net) (w : pyst) (X : list (option bool)) (i : nat), CoreInv N w -> length X = nvars N -> py_find_node w X = Some i <-> i < size (p_sd w) /\ n_space (get (p_sd w) i) = X.
+Proof. exact py_find_node_exact. Qed.
+
+Theorem C20_source_find_node_none : forall (N : net) (w : pyst) (X : list (option bool)), CoreInv N w -> length X = nvars N -> py_find_node w X = None <-> ~ In X (spaces (p_sd w)).
+Proof. exact py_find_node_none. Qed.
+
+(* the id iterators enumerate the nodes / the expanded nodes / the stubs *)
+Theorem C20_source_node_ids : forall (w : pyst) (i : nat), In i (py_node_ids w) <-> i < size (p_sd w).
+Proof. exact py_node_ids_spec. Qed.
+
+Theorem C20_source_expanded_ids : forall (w : pyst) (i : nat), In i (py_expanded_ids w) <-> i < size (p_sd w) /\ n_exp (get (p_sd w) i) = true.
+Proof. exact py_expanded_ids_spec. Qed.
+
+Theorem C20_source_stub_ids : forall (w : pyst) (i : nat), In i (py_stub_ids w) <-> i < size (p_sd w) /\ n_exp (get (p_sd w) i) = false.
+Proof. exact py_stub_ids_spec. Qed.
+
+(* edge_stable_motif is the first of edge_all_stable_motifs (also reduced), defined exactly on the edges *)
+Theorem C20_source_edge_stable_motif_first : forall (w : pyst) (p c : nat) (red : bool), py_edge_stable_motif w p c red = option_map (fun l : list (list (option bool)) => hd [] l) (py_edge_all_stable_motifs w p c red).
+Proof. exact py_edge_stable_motif_first. Qed.
+
+Theorem C20_source_edge_stable_motif_defined : forall (w : pyst) (p c : nat) (red : bool), (exists m : space, py_edge_stable_motif w p c red = Some m) <-> has_edge (p_sd w) p c = true.
+Proof. exact py_edge_stable_motif_defined. Qed.
 
 Theorem C20_source_init : forall (fuel : nat) (N : net) (cfg : config) (pnc : nat -> bool), 0 < fuel -> exists w : pyst, py_init fuel N cfg pnc = CNext w Datatypes.tt /\ p_sd w = init N /\ CoreInv N w.
 Proof. exact py_init_spec. Qed.
@@ -98,6 +125,14 @@ Proof. exact is_isomorphic_b_sym. Qed.
 
 Print Assumptions C20_source_is_subgraph.
 Print Assumptions C20_source_is_isomorphic.
+Print Assumptions C20_source_find_node.
+Print Assumptions C20_source_find_node_exact.
+Print Assumptions C20_source_find_node_none.
+Print Assumptions C20_source_node_ids.
+Print Assumptions C20_source_expanded_ids.
+Print Assumptions C20_source_stub_ids.
+Print Assumptions C20_source_edge_stable_motif_first.
+Print Assumptions C20_source_edge_stable_motif_defined.
 Print Assumptions C20_source_init.
 Print Assumptions C20_source_depth.
 Print Assumptions C20_source_ensure_node.
